@@ -2017,5 +2017,5 @@ for _p in ("C05", "C04"):
     PROPS[_p]["fams"] = PROPS[_p]["fams"] + [("fam_encode_paths", 100, 3000)]
 PROPS["C18"]["translated"] = True
 PROPS["C12"]["translated"] = True
-for _p in ("C14", "C01", "C04"):
+for _p in ("C14", "C01", "C04", "C07"):
     PROPS[_p]["translated"] = True
